@@ -15,6 +15,11 @@ GRAPH_TIE = ("The model (lean/PjVerif/Model/Graph*.lean) mirrors task.py/wbs.py 
              "property's projection, while the Lean monitors (the Bool versions of the very predicates the theorems are about) judge the "
              "implementation's observed states. A mismatch or a broken proof triggers a failing-input search.")
 
+SCHED_TIE = ("The model (lean/PjVerif/Model/Sched.lean, Clone.lean) mirrors schedule.py statement by statement and is tied to the code by a "
+             "correspondence stream (random WBSs with links on leaves and summaries, outside predecessors, milestones, fixed dates, 0-3 resources "
+             "with weekly/dated/composed/bounded/dead calendars, scripted clock, both balance settings): ordered usage rows, dates and resource "
+             "list must be equal; the Bool predicates the theorems conclude are the ones evaluated on the implementation's observation.")
+
 CLAIMED = {
     'C01': dict(
         text=("Theorem C01_step/C01_run (no bound on universe size or history length): every public mutator of the model - parent, "
@@ -24,6 +29,22 @@ CLAIMED = {
               "descendant) to a well-formed graph whether the call returns or raises; hence every intermediate state of every history "
               "is well-formed. " + GRAPH_TIE),
         design='5 (C01)', technique='Lean 4 invariant proof by induction over operation histories + differential correspondence'),
+    'C02': dict(
+        text=("PARTIAL. Theorem C02_partial (all sizes, calendars, clocks): when no task that has children carries a dependency link, a leaf "
+              "with unfixed start never starts and never has work reserved on a day earlier than the end day of any own or inherited "
+              "prerequisite, the project start day, its min_start day or the current day, and a milestone sits exactly at the latest "
+              "prerequisite end (or the project start); hypotheses are the structural facts C01 guarantees (parent pointers agree with children "
+              "lists, links stored on both ends), a monotone clock that stays within one day, and outside predecessors being leaves. The full "
+              "statement is false on the code with links on summary tasks: C02_full_fails is a kernel-checked counterexample (finding "
+              "KF-S2-C02, replayed on the implementation on every run); a failure inside the hypotheses, or one the model does not predict, is "
+              "reported as a violation. " + SCHED_TIE),
+        design='6 (C02)', technique='Lean 4 proof (pass invariant) of the partial statement + kernel-checked counterexample + differential correspondence'),
+    'C07': dict(
+        text=("Theorems C07_forward / C07_backward / C07_rollup_forward: in every schedule of the model each summary task's start, end, estimate "
+              "and spent are the earliest start, latest end and the sums over its children, whatever the user had put there; every task has "
+              "start <= end (forward: when user-fixed dates are consistent, i.e. a fixed end comes with a fixed start not after it - the "
+              "statement's domain); C07_wbs_start_end_*: WBS.start/WBS.end are the earliest start / latest end over all tasks. " + SCHED_TIE),
+        design='6 (C07)', technique='Lean 4 proof (pass invariant: frozen-once-calculated, children before parents) + differential correspondence'),
     'C03': dict(
         text=("Theorems C03_forward / C03_backward for every input of the scheduler model (any WBS, resource set, calendars incl. "
               "zero-capacity days, fractional capacities and bounded validity, both balance settings, any clock), no bound on sizes: every "
@@ -60,6 +81,17 @@ CLAIMED = {
               "three excluded operations: C15_full_fails is a kernel-checked counterexample, replayed on the implementation on every run and "
               "listed as known findings KF-G12a/b/c; any other violation is reported. " + GRAPH_TIE),
         design='5 (C15)', technique='Lean 4 proof (atomicity lemma) + differential correspondence; known findings for element-wise list ops'),
+    'C18': dict(
+        text=("Here the model is TRANSLATED, not hand-written: tools/extract.py parses the if/elif keyword-suffix chain of "
+              "_ImmutableTaskList.__call__ with `ast` on every run and emits it as data (suffix, cut, reject condition) into "
+              "lean/PjVerif/Extracted/Query.lean; `holds` is defined from that table. Theorems re-checked against the current source: C18_table "
+              "(exactly the documented suffixes, each branch cuts its suffix), C18_kind_meaning / C18_default_meaning (each branch's reject "
+              "condition is the negation of the documented meaning for every attribute and filter value), C18_parse (first match = longest "
+              "documented suffix), C18_holds(All), C18_absent (a task lacking the attribute never satisfies a comparison or pattern filter), "
+              "C18_query (the result is, in list order, exactly the tasks satisfying every filter). A changed operator, slice length or branch "
+              "order breaks a proof; the check then searches for a failing input with the documented-meaning monitor. Attribute lookup, bulk "
+              "assignment and remove_all (exactly the matched tasks with subtrees, returned) are covered by the correspondence stream."),
+        design='5 (C18)', technique='Lean 4 proof over a table extracted from the source by AST translation + differential correspondence'),
     'C17': dict(
         text=("Theorems for every calendar definition, date, search start, direction and horizon: the model of calendar.py/resource.py "
               "evaluates every valid definition to the meaning C17 states (C17_eval_den), constructors reject exactly the invalid "
